@@ -448,6 +448,8 @@ type c13Profile struct {
 	pcMissing                             bool // spec.priorityClassName names no PriorityClass: the admission fails when applied
 	hasProbStr                            bool // spec.probability is the STRING probStr, handed to the model as bytes (the model parses it)
 	probStr                               string
+	hasSel                                bool // the selectors' outcomes are handed to the model (op `sel`), which decides `matched`
+	nsSel, objSel                         int  // 0 nil 1 empty 2 match 3 no match 4 evaluation error
 	hasQoS                                bool
 	qos                                   string // spec.qosClass (non-empty when hasQoS)
 	hasPrio                               int
@@ -531,8 +533,14 @@ func (p *c13Profile) opLines() []string {
 	if p.hasProbStr {
 		out = append(out, fmt.Sprintf("probstr %d %s", p.name, c13EncStr(p.probStr)))
 	}
+	if p.hasSel {
+		out = append(out, fmt.Sprintf("sel %d %d %d", p.name, p.nsSel, p.objSel))
+	}
 	return out
 }
+
+// c13NamespaceMissing: the case's namespace object does not exist (every namespace lookup fails).
+var c13NamespaceMissing = false
 
 func c13GenMutatingPod(r *vRand) *corev1.Pod {
 	pod := &corev1.Pod{ObjectMeta: metav1.ObjectMeta{Namespace: "default", Name: "p"}}
@@ -644,6 +652,7 @@ func c13GenMutatingPod(r *vRand) *corev1.Pod {
 var c13LabelVals = []string{"BE", "LS", "LSR", "LSE", "SYSTEM", "koord-batch", "koord-mid", "koord-prod", "koord-free", "foo", ""}
 
 func c13GenProfiles(r *vRand, pod *corev1.Pod) []c13Profile {
+	c13NamespaceMissing = r.Chance(1, 10)
 	np := int(r.Pick([]int64{0, 1, 1, 1, 1, 1, 2, 2, 3}))
 	ids := r.Perm(10)[:np]
 	ps := make([]c13Profile, 0, np)
@@ -663,6 +672,18 @@ func c13GenProfiles(r *vRand, pod *corev1.Pod) []c13Profile {
 		}
 		if r.Chance(1, 40) {
 			p.probInvalid = true
+		}
+		if r.Chance(1, 4) { // namespaceSelector / selector shapes; the profile is dropped only by a selector that says "no match"
+			p.hasSel = true
+			p.nsSel = int(r.Pick([]int64{0, 0, 1, 2, 2, 3, 4}))
+			p.objSel = int(r.Pick([]int64{0, 0, 1, 2, 2, 2, 3, 4}))
+			if p.objSel == 2 && pod.Labels["app"] != "c13" {
+				p.objSel = 3 // the selector app=c13 does not match this pod
+			}
+			if c13NamespaceMissing && (p.nsSel == 2 || p.nsSel == 3) {
+				p.nsSel = 4 // the lookup of the namespace fails
+			}
+			p.matched = vB(p.nsSel != 3 && p.objSel != 3) // restated for the oracle
 		}
 		if r.Chance(1, 7) { // a string-typed probability whose parse is the model's business
 			p.hasProb, p.prob, p.probPercent, p.probInvalid = 0, 0, false, false
@@ -812,17 +833,46 @@ func c13PatchJSON(p *c13Profile) []byte {
 
 func c13ProfileObjects(ps []c13Profile) []ctrlclient.Object {
 	var objs []ctrlclient.Object
+	if !c13NamespaceMissing {
+		objs = append(objs, &corev1.Namespace{ObjectMeta: metav1.ObjectMeta{Name: "default", Labels: map[string]string{"team": "a"}}})
+	}
 	seenPC := map[int64]bool{}
 	for i := range ps {
 		p := &ps[i]
 		o := &configv1alpha1.ClusterColocationProfile{ObjectMeta: metav1.ObjectMeta{Name: fmt.Sprintf("p%d", p.name)}}
-		if p.matched == 0 {
+		if p.hasSel {
+			// two ways to write a selector: matchLabels (the fast path of GetFastLabelSelector) / matchExpressions
+			mk := func(shape int, key, val string) *metav1.LabelSelector {
+				switch shape {
+				case 1:
+					return &metav1.LabelSelector{}
+				case 2, 3:
+					if shape == 3 {
+						val = "c13-other"
+					}
+					if p.name%2 == 0 {
+						return &metav1.LabelSelector{MatchLabels: map[string]string{key: val}}
+					}
+					return &metav1.LabelSelector{MatchExpressions: []metav1.LabelSelectorRequirement{{Key: key, Operator: metav1.LabelSelectorOpIn, Values: []string{val}}}}
+				case 4:
+					return &metav1.LabelSelector{MatchExpressions: []metav1.LabelSelectorRequirement{{Key: key, Operator: "C13Bogus", Values: []string{val}}}}
+				}
+				return nil
+			}
+			o.Spec.Selector = mk(p.objSel, "app", "c13")
+			if p.nsSel == 4 && c13NamespaceMissing {
+				o.Spec.NamespaceSelector = mk(2+p.name%2, "team", "a") // a valid selector; the namespace lookup fails
+			} else {
+				o.Spec.NamespaceSelector = mk(p.nsSel, "team", "a")
+			}
+		} else if p.matched == 0 {
 			o.Spec.Selector = &metav1.LabelSelector{MatchLabels: map[string]string{"c13-no-such-label": "x"}}
 		} else if p.name%2 == 0 {
 			o.Spec.Selector = &metav1.LabelSelector{} // empty selector matches everything
 		}
 		if p.skipRes == 1 {
-			o.Annotations = map[string]string{c13AnnSkip: "true"}
+			// the annotation counts by its presence, whatever its value
+			o.Annotations = map[string]string{c13AnnSkip: []string{"true", "false", ""}[p.name%3]}
 		}
 		if p.hasProb == 1 {
 			v := intstr.FromInt(p.prob)
@@ -884,6 +934,15 @@ func c13ProfileObjects(ps []c13Profile) []ctrlclient.Object {
 
 // c13Obs emits the canonical observation block of a pod.
 func c13Obs(h *vHarness, pod *corev1.Pod) []string {
+	lines := c13ObsLines(pod)
+	for _, l := range lines {
+		h.Obs("%s", l)
+	}
+	return lines
+}
+
+// c13ObsLines: the canonical observation block of a pod, not emitted.
+func c13ObsLines(pod *corev1.Pod) []string {
 	var lines []string
 	lines = append(lines, "meta "+c13EncMeta(pod))
 	for i := range pod.Spec.InitContainers {
@@ -903,9 +962,6 @@ func c13Obs(h *vHarness, pod *corev1.Pod) []string {
 		lines = append(lines, "pl 0")
 	}
 	lines = append(lines, "ann "+c13EncAnnot(pod.Annotations))
-	for _, l := range lines {
-		h.Obs("%s", l)
-	}
 	return lines
 }
 
@@ -1039,8 +1095,14 @@ func c13CheckAnnotation(h *vHarness, pod *corev1.Pod) {
 func c13OracleFirst(h *vHarness, before, pod *corev1.Pod, profiles []c13Profile, create, gate bool, rnd int, pfx string) bool {
 	anyMatched, anySkipRes, appliedSimple, resPatched := false, false, true, false
 	applied := 0
+	// a profile whose selector cannot be evaluated: the unchanged tree keeps it (the model mirrors that), but the property
+	// does not say so - the oracle stays silent on the clauses that depend on which profiles match
+	uncertain := false
 	for i := range profiles {
 		p := &profiles[i]
+		if p.hasSel && p.matched == 1 && (p.nsSel == 4 || p.objSel == 4) {
+			uncertain = true
+		}
 		if p.matched == 1 {
 			anyMatched = true
 			if p.skipRes == 1 {
@@ -1085,7 +1147,10 @@ func c13OracleFirst(h *vHarness, before, pod *corev1.Pod, profiles []c13Profile,
 			h.Tag(pfx + "translated-though-all-skipped:" + pc)
 		}
 	}
-	if create && anyMatched && !anySkipRes && !gate && isTier {
+	if uncertain {
+		h.Tag(pfx + "selectors:evaluation-error")
+	}
+	if create && anyMatched && !anySkipRes && !gate && isTier && !uncertain {
 		for _, cs := range [][]corev1.Container{pod.Spec.InitContainers, pod.Spec.Containers} {
 			for i := range cs {
 				for _, l := range []corev1.ResourceList{cs[i].Resources.Requests, cs[i].Resources.Limits} {
@@ -1100,7 +1165,7 @@ func c13OracleFirst(h *vHarness, before, pod *corev1.Pod, profiles []c13Profile,
 	}
 	// amounts: compared against the pod before admission, so only when no applied profile patched
 	// resources, and (the statement speaks of amounts) only for non-negative quantities
-	if create && anyMatched && !anySkipRes && !gate && isTier && !resPatched && nonNeg {
+	if create && anyMatched && !anySkipRes && !gate && isTier && !resPatched && nonNeg && !uncertain {
 		h.Tag(pfx + "translated:" + pc)
 		h.Nontrivial()
 		for li, lists := range [][2][]corev1.Container{{before.Spec.InitContainers, pod.Spec.InitContainers}, {before.Spec.Containers, pod.Spec.Containers}} {
@@ -1185,12 +1250,44 @@ func c13ViaHandle(h *vHarness, handler *PodMutatingHandler, raw []byte, submitte
 		h.Fail("C13:stored-patch-unusable", "the patched object is no pod: %v", err)
 		return
 	}
-	c13Obs(h, stored)
+	first := c13Obs(h, stored)
 	if env.op == 0 && env.sub == 0 && env.res == 0 {
 		// the request is a pod CREATE: the stored pod must obey the translation clauses
 		c13Fp = "C13:stored-"
-		c13OracleFirst(h, submitted, stored, profiles, true, gate, rnd, "stored:")
+		appliedSimple := c13OracleFirst(h, submitted, stored, profiles, true, gate, rnd, "stored:")
 		c13Fp = "C13:"
+		// ---- admitting the result again changes nothing, as the user sees it: the stored object submitted once more
+		// (same profiles, same draw) is stored as it is (theorem handle_readmission_idempotent; hypothesis AppliedSimple) ----
+		if appliedSimple {
+			req.Object.Raw = storedJSON
+			var resp2 admission.Response
+			if h.Guard(func() { resp2 = handler.Handle(context.TODO(), req) }) || !resp2.Allowed {
+				h.Fail("C13:stored-not-idempotent", "the stored pod is rejected when it is submitted again")
+				return
+			}
+			again := storedJSON
+			if len(resp2.Patches) > 0 {
+				pb, err := json.Marshal(resp2.Patches)
+				if err == nil {
+					var patch jsonpatch.Patch
+					if patch, err = jsonpatch.DecodePatch(pb); err == nil {
+						again, err = patch.Apply(storedJSON)
+					}
+				}
+				if err != nil {
+					h.Fail("C13:stored-patch-unusable", "the second response's JSON patch does not apply: %v", err)
+					return
+				}
+			}
+			stored2 := &corev1.Pod{}
+			if err := json.Unmarshal(again, stored2); err != nil {
+				h.Fail("C13:stored-patch-unusable", "the re-admitted object is no pod: %v", err)
+				return
+			}
+			if strings.Join(first, "\n") != strings.Join(c13ObsLines(stored2), "\n") {
+				h.Fail("C13:stored-not-idempotent", "submitting the stored pod again changes it")
+			}
+		}
 	}
 }
 
@@ -1207,6 +1304,16 @@ func c13RunMutatingCase(h *vHarness, t *testing.T, decoder admission.Decoder, po
 	for i := range profiles {
 		for _, l := range profiles[i].opLines() {
 			h.Op("%s", l)
+		}
+		if profiles[i].hasSel {
+			h.Tag(fmt.Sprintf("selectors:ns%d/obj%d", profiles[i].nsSel, profiles[i].objSel))
+		}
+		if profiles[i].hasProbStr {
+			if _, ok := c13PercentOf(profiles[i].probStr); ok {
+				h.Tag("probability:string-percent")
+			} else {
+				h.Tag("probability:string-invalid")
+			}
 		}
 	}
 	client := fake.NewClientBuilder().WithScheme(scheme.Scheme).WithObjects(c13ProfileObjects(profiles)...).Build()
